@@ -18,7 +18,9 @@
       `popitem`/`clear`, and `MutableMapping.setdefault`/`update` on top of them) — `nsopOwn`;
       `pypyr.moduleloader._ChainMapPretendDict` — `localsGetItem` / `globalsGetItem` / `globalsRaw`
                                                    / `storeName` / `storeGlobal` / `delName`
-    * `pypyr.steps.py.run_step`, `get_save`     — `runPyStep`, `doSave`
+    * `pypyr.steps.py.run_step`, `get_save`     — `runPyStep`, `doSave`; the `save` function object
+                                                   called AFTER its step has ended (kept by the block
+                                                   directly or inside a helper function) — `runSaveCall`
     * `pypyr.steps.pyimport.run_step`, `Context.pystring_globals_update` — `runPyImport`
     * `pypyr.steps.set.run_step` with a `!py` value — `runEvalSet`; `pypyr.dsl.Step.foreach_loop`
       over a `!py` value — `runForeach` / `foreachLoop`
@@ -1279,6 +1281,40 @@ def runPyStep (fuel : Nat) (st : St) (b : List Stmt) : R Unit × St :=
   let sc : Scope := { kind := .module, chain := [], explicit := blockExplicit b }
   match execBlock .exec fuel sc b (st.enter .exec (pyStepNs st.ctx)) with
   | (r, st1) => (r, st1.retire st.next st.cur)
+
+/-- A LATER call `save(*names, **kvs)` of the `save` FUNCTION OBJECT that `get_save(context, namespace)`
+    made for the py step whose namespace object is `k` — after that step has ended: the block kept the
+    function itself (`save('save')`) or a helper whose body calls it (`def note(t): …; save(count=…)`,
+    `save('note')`), and a later `!py note(i)` / a decorator / other code calls it, with any number of
+    context updates, key deletions and `contextclearall` in between.  `save` is a closure over the
+    step's `context` (the session's Context object) and `namespace` (the exec globals dict, which lives on
+    with the closure); EVERY CALL builds its own `d = {}`, fills it from `namespace[name]` for the
+    positional names and with the keyword values, and ends in `context.update(d)`.  `kvs`: the keyword
+    values as the caller's code evaluated them.  `outOfDomain`: no such namespace object in the model
+    (nothing in the model's heap keeps it alive), not a py step's, or one whose Context was left behind. -/
+def runSaveCall (st : St) (k : Nat) (names : List String) (kvs : Env) : R Unit × St :=
+  match nsGet st.nss k with
+  | some r =>
+    if r.arr == .exec && !r.stale then
+      match saveNames r.own names [] with
+      | some d => (.ok (), doSave st (d.update kvs))
+      | Option.none => (.err .keyError, st)
+    else (.err .outOfDomain, st)
+  | Option.none => (.err .outOfDomain, st)
+
+/-- The COUNTER-MODEL of `runSaveCall`: the dict hoisted out of `save` into the enclosing `get_save`
+    ("make the dict once per py step"): `acc` is that dict, state of the closure — every call adds its
+    arguments to it and writes THE WHOLE of it back.  Returns the new `acc` too. Used only by the
+    witness `hoisted_save_dict_counterexample`. -/
+def runSaveCallHoisted (st : St) (acc : Env) (k : Nat) (names : List String) (kvs : Env) : R Unit × St × Env :=
+  match nsGet st.nss k with
+  | some r =>
+    if r.arr == .exec && !r.stale then
+      match saveNames r.own names acc with
+      | some d => (.ok (), doSave st (d.update kvs), d.update kvs)
+      | Option.none => (.err .keyError, st, acc)
+    else (.err .outOfDomain, st, acc)
+  | Option.none => (.err .outOfDomain, st, acc)
 
 /-- `pypyr.steps.pyimport.run_step`: `context.pystring_globals_update(namespace)`. -/
 def runPyImport (st : St) (bindings : Env) : St := { st with imps := st.imps.update bindings }
